@@ -96,6 +96,19 @@ impl<T> NumbatList<T> {
     }
 }
 
+/// Verification hooks (feature `verif-hooks`): build a list value from an explicit
+/// representation state and read the representation back. No behaviour.
+#[cfg(feature = "verif-hooks")]
+impl<T> NumbatList<T> {
+    pub fn verif_from_parts(alloc: Arc<VecDeque<T>>, view: Option<(usize, usize)>) -> Self {
+        Self { alloc, view }
+    }
+
+    pub fn verif_parts(&self) -> (&Arc<VecDeque<T>>, Option<(usize, usize)>) {
+        (&self.alloc, self.view)
+    }
+}
+
 impl<T: Clone> NumbatList<T> {
     fn make_mut(&mut self) -> (&mut Option<(usize, usize)>, &mut VecDeque<T>) {
         if Arc::strong_count(&self.alloc) != 1 {
